@@ -92,12 +92,15 @@ func ruleC07R1(c *Ctx) {
 	for i := range f6StructInvs {
 		pr.structInvOK[f6StructInvs[i].typ] = true
 	}
+	pr.verifyConfigLower(c)
 	pr.verifyStructInvs(c)
 	for _, ok := range pr.structInvOK {
 		if !ok {
 			keep := pr.structInvOK
+			cl := pr.configLowerOK
 			pr = newProver(c) // drop everything derived under the withdrawn assumption
 			pr.structInvOK = keep
+			pr.configLowerOK = cl
 			break
 		}
 	}
